@@ -7,6 +7,7 @@ import (
 	"go/types"
 	"sort"
 	"strings"
+	"unicode/utf8"
 
 	"golang.org/x/tools/go/ssa"
 )
@@ -958,7 +959,7 @@ func c15SpeculationAs(c *Ctx, rule string) {
 					if stt, isS := deref(fa.X.Type()).Underlying().(*types.Struct); isS && fa.Field < stt.NumFields() && stt.Field(fa.Field).Embedded() {
 						if inner, isIS := stt.Field(fa.Field).Type().Underlying().(*types.Struct); isIS {
 							for k := 0; k < inner.NumFields(); k++ {
-								restored[inner.Field(k).Name()] = true
+								restored[canonFieldName(inner.Field(k))] = true
 							}
 						}
 					}
@@ -1445,9 +1446,34 @@ func c15LineBreakSet(c *Ctx) {
 	for _, r := range specLineBreaks {
 		want[r] = true
 	}
+	// a table builder that walks bytes and decodes only where a multi-byte terminator can start reads the byte at the
+	// loop position as well: that byte is the first byte of the sample's encoding
+	var byteLoads []ssa.Value
+	instrs(f, func(b *ssa.BasicBlock, i int, in ssa.Instruction) {
+		u, ok := in.(*ssa.UnOp)
+		if !ok || u.Op != token.MUL || !l.Body[b] {
+			return
+		}
+		ia, ok := u.X.(*ssa.IndexAddr)
+		if !ok {
+			return
+		}
+		if _, isPhi := ia.Index.(*ssa.Phi); !isPhi {
+			return
+		}
+		if bt, ok := u.Type().Underlying().(*types.Basic); ok && bt.Kind() == types.Uint8 {
+			byteLoads = append(byteLoads, u)
+		}
+	})
 	samples := []rune{'\n', '\r', 0x2028, 0x2029, 0x85, ' ', '\t', '\v', '\f', 'a', '0', 0xA0, 0x2027, 0x202A, 0x84, 0x86, 0x3000, 0xFEFF, 0x0B, 0x1C, 0x1D, 0x1E}
 	for _, r := range samples {
-		res := c.foldWith(f, 2, pinValue(ch, constant.MakeInt64(int64(r))), pinLoopEntered(l.Header))
+		pins := []Pin{pinValue(ch, constant.MakeInt64(int64(r))), pinLoopEntered(l.Header)}
+		var enc [4]byte
+		utf8.EncodeRune(enc[:], r)
+		for _, bl := range byteLoads {
+			pins = append(pins, pinValue(bl, constant.MakeInt64(int64(enc[0]))))
+		}
+		res := c.foldWith(f, 2, pins...)
 		newLine := false
 		for _, b := range f.Blocks {
 			if !res.Reach[b] || !l.Body[b] {
